@@ -13,7 +13,7 @@ class SpecError(Exception):
 
 TOK = re.compile(r"""\s*(?:
     (?P<num>0[xX][0-9a-fA-F_]+|0[bB][01_]+|\d[\d_]*)|
-    (?P<id>[A-Za-z_][A-Za-z_0-9]*)|
+    (?P<id>[A-Za-z_$][A-Za-z_0-9]*)|
     (?P<op><==>|==>|&\^|<<|>>|&&|\|\||==|!=|<=|>=|[-+*/%&|^<>!().,\[\]:{}])
 )""", re.X)
 
